@@ -16,6 +16,9 @@ for i in (1, 2):
     run = m.group(1)
     m = re.search(r"go test[^\n]*?\s(\./[A-Za-z0-9_/]+|\.)\s*$", head, re.M)
     pkg = m.group(1).strip("./").rstrip("/") if m else None
+    mc = re.search(r"Copy into:\s*([A-Za-z0-9_/]+?)/?\s", head)
+    if mc:
+        pkg = mc.group(1).rstrip("/")
     if pkg is None or pkg == "":
         m = re.search(r"(?:Copy (?:in)?to[^:]*:\s*)([A-Za-z0-9_/]+)/", head); pkg = m.group(1)
     mod = "gcetcbendorsement" if pkg.startswith("gcetcbendorsement") else ""
@@ -34,7 +37,8 @@ for i in (1, 2):
         res["demo_" + variant] = "FAIL" if rc else "PASS"
         res["demo_" + variant + "_tail"] = out[-600:]
         shutil.rmtree(d)
-    rc, out = sh(f"/verif/tools/mutcheck.sh {diff} -- {P}")
+    props = os.environ.get("SEED_PROPS", P)
+    rc, out = sh(f"/verif/tools/mutcheck.sh {diff} -- {props}")
     viol = [l for l in out.splitlines() if l.startswith("VIOLATION")]
     res["check_exit"] = rc; res["violations"] = [re.sub(r"replay=\S+ ", "", v)[:300] for v in viol]
     ok = res.get("build_ok") and res["demo_with"] == "FAIL" and res["demo_without"] == "PASS"
@@ -48,5 +52,5 @@ for i in (1, 2):
     json.dump({"property": P, "source": "independent sub-agent given only the property text and a scratch worktree",
                "demo": {"package_dir": pkg, "run": run}, "what_it_breaks_and_needs": about,
                "confirmed": {"build_ok": res["build_ok"], "demo_with_patch": res["demo_with"], "demo_without_patch": res["demo_without"]},
-               "ran": [f"git apply patch.diff; go build ./...", f"go test -run '{run}' ./{pkg}/ (with and without the patch)", f"/verif/tools/mutcheck.sh patch.diff -- {P}"],
+               "ran": [f"git apply patch.diff; go build ./...", f"go test -run '{run}' ./{pkg}/ (with and without the patch)", f"/verif/tools/mutcheck.sh patch.diff -- {props}"],
                "detected_by_quick_check": rc == 1 and len(viol) > 0, "violations": res["violations"]}, open(f"{dst}/meta.json", "w"), indent=1)
